@@ -366,8 +366,8 @@ def gen_overlap(rng, tier):
     for _ in range(40 if tier == "quick" else 600):
         n = rng.choice([2, 2, 3, 4])
         same = rng.random() < 0.7
-        k = rng.randrange(0, 4)
-        out.append({"tasks": [{"before": k if same else rng.randrange(0, 4), "via": rng.choice(["bytes", "str", "preserve"]),
+        k = rng.choice([0, 1, 2, 3, 9, 10, 13])          # also positions >= 10: multi-digit components in the task id
+        out.append({"tasks": [{"before": k if same else rng.choice([0, 1, 2, 3, 8, 11]), "via": rng.choice(["bytes", "str", "preserve"]),
                                "logs": rng.randrange(1, 4)} for _ in range(n)]})
     return out
 
